@@ -21,6 +21,8 @@ def run_case(a):
     cli, drv, idx, seed, mode, path, nsecond = a
     rnd = random.Random(seed)
     files = compound.gen(rnd, idx, nfiles=rnd.randint(1, 6))
+    if idx % 6 == 5:
+        files = compound.events_only(files, idx)        # a project that only emits events is generated, cached and re-run like any other
     nmap = rnd.randint(0, 3)
     mappings = dict(rnd.sample([("PathBuf", "string"), ("Uuid", "string"), ("Decimal", "number"), ("DateTime<Utc>", "string"), ("Url", "string")], nmap))
     root = common.scratch("c14")
